@@ -830,6 +830,21 @@ fn check_facts(n: &SyntaxNode, parent: Option<&SyntaxNode>, in_raw: bool, is_roo
             out.push(format!("PF15: {k:?} with children {:?}", ch.iter().map(|c| c.kind()).collect::<Vec<_>>()));
         }
     }
+    // PF18: code-mode inner nodes end where their last token ends (trailing trivia stays outside); an ImportItems node has a child
+    if grammar_gen::is_inner_kind(k) && !matches!(k, K::Markup | K::Math | K::Code | K::Raw) {
+        if let Some(l) = ch.last() {
+            if matches!(l.kind(), K::Space | K::LineComment | K::BlockComment | K::Parbreak) {
+                out.push(format!("PF18: {k:?} ends with {:?}", l.kind()));
+            }
+        }
+    }
+    if k == K::ModuleImport {
+        for (j, c) in ch.iter().enumerate() {
+            if c.kind() == K::ImportItems && c.children().len() == 0 && !ch[..j].iter().any(|p| p.kind() == K::LeftParen) && !(j > 0 && ch[j - 1].kind() == K::Colon) {
+                out.push("PF18: empty ImportItems neither inside parentheses nor directly after the colon".to_string());
+            }
+        }
+    }
     // PF13
     if matches!(k, K::Math | K::Markup) {
         for c in &ch {
